@@ -28,7 +28,7 @@ RULE = (
     'object; at the outermost observed frame all argument objects are fingerprinted bit-exactly at entry and at '
     'return. Workloads: (1) the hostile workloads of the other property modules re-run with this monitor riding '
     'along, (2) an aliasing grid: entry points called with arguments already in the unit/dtype the function '
-    'converts to (so internal copy=False conversions alias), as plain arrays, read-only arrays and slices of '
+    'converts to (so internal copy=False conversions alias), as plain arrays and as slices of '
     'larger caller-owned arrays, (3) thorough only: the repository test-suite with the monitor armed. '
     'oracle B (history): for each family of factories/lookups a pristine reference is taken, then ALL sequences '
     'of length <= 3 over {call factory i, mutate the k-th earlier result through its public surface} are '
@@ -271,6 +271,12 @@ def alias_grid(ctx, shard):
                                   coords={'tof': sc.arange('tof', 5.0, unit='us')})
                 call('CIF.with_reduced_powder_data+save', lambda: cif.CIF('a').with_reduced_powder_data(pd).save(io.StringIO()))
                 call('save_xye', lambda: save_xye(io.StringIO(), pd))
+                chunk = cif.Chunk({'a.b': 1, 'a.c': 'text'}, comment='chunk comment')
+                loop = cif.Loop({'l.x': sc.arange('i', 3.0, unit='m'), 'l.y': sc.arange('i', 3.0)}, comment='loop comment')
+                call('Block.add(Chunk, comment)', lambda: cif.Block('holder').add(chunk, comment='another comment'))
+                call('Block.add(Loop, comment)', lambda: cif.Block('holder').add(loop, comment='another comment'))
+                call('Block(name, [Chunk, Loop])', lambda: cif.save_cif(io.StringIO(), cif.Block('holder', [chunk, loop], comment='c')))
+                call('save_cif([Block, Block])', lambda: cif.save_cif(io.StringIO(), [cif.Block('b1', [chunk]), cif.Block('b2', [loop])], comment='file'))
                 blk = cif.Block('b', [{'x.y': sc.scalar(1.5, variance=0.01, unit='m')}])
                 call('Block.write', lambda: cif.save_cif(io.StringIO(), blk))
                 # ---- convert with positions
